@@ -2,6 +2,7 @@ package formula
 
 func init() {
 	vpHarnesses["VP_C01_bytes"] = VP_C01_bytes
+	vpHarnesses["VP_C01_pool"] = VP_C01_pool
 	vpHarnesses["VP_C01_lists"] = VP_C01_lists
 }
 
@@ -99,6 +100,18 @@ func vpComplete(n Expression, depth int) bool {
 func VP_C01_bytes() {
 	L := vpParam("L")
 	text := vpBytes("t", L)
+	vpC01CheckText(text)
+}
+
+// C01/pool: the same totality and completeness checks on the C02 pool of longer
+// concrete formulas (keywords as member names and operands, nested lists and
+// conditionals, truncated constructs).
+func VP_C01_pool() {
+	vpC01CheckText([]byte(vpC02Texts[vpChoice("text", len(vpC02Texts))]))
+}
+
+func vpC01CheckText(text []byte) {
+	L := len(text)
 	src, err := ParseSourceCode(text)
 	// exactly one of the two outcomes, on every call: a second parse of the same text agrees
 	_, err2 := ParseSourceCode(text)
